@@ -758,14 +758,28 @@ def gen_cyclic(rng, tier):
         return
     sets4 = cyclic_edge_sets(4)
     sets5 = [es for es in cyclic_edge_sets(5) if len(es) == 5]
-    for i in range({"quick": 420, "search": 1500}[tier]):
+    for i in range({"quick": 700, "search": 1500}[tier]):
         es = list(rng.choice(sets4 if i % 3 else sets5))
         rng.shuffle(es)
         yield _raw_from_rel(kinds[i % 3], es, "cyclic_perm")
     # all 24 orders of a few 4-edge sets whose cycle closes through a tail edge
-    for es in ([("a", "b"), ("b", "c"), ("x", "a"), ("b", "x")], [("a", "b"), ("b", "x"), ("x", "a"), ("x", "c")]):
+    # the edge that closes the cycle comes last, everything else in random order
+    idx = {nm: i for i, nm in enumerate(_CYC_NAMES)}
+    for i in range({"quick": 500, "search": 1500}[tier]):
+        es = list(rng.choice(sets4 if i % 2 else sets5))
+        closing = [e for e in es if _is_acyclic(4, [(idx[p], idx[c]) for p, c in es if (p, c) != e])]
+        if not closing:
+            continue
+        last = rng.choice(closing)
+        rest = [e for e in es if e != last]
+        rng.shuffle(rest)
+        yield _raw_from_rel(kinds[i % 3], rest + [last], "cyclic_closing_last")
+    full = [[("a", "b"), ("b", "c"), ("x", "a"), ("b", "x")], [("a", "b"), ("b", "x"), ("x", "a"), ("x", "c")]]
+    four = [es for es in sets4 if len(es) == 4]
+    full += [list(rng.choice(four)) for _ in range(10)]
+    for q, es in enumerate(full):
         for j, perm in enumerate(itertools.permutations(es)):
-            yield _raw_from_rel(kinds[j % 3], perm, "cyclic_perm")
+            yield _raw_from_rel(kinds[(j + q) % 3], perm, "cyclic_perm")
 
 
 def _export_case(rng, dag, attr_style):
